@@ -8,6 +8,7 @@ Jobs
   produce : single uninterrupted run(T); then for every requested step boundary k a fresh seeded run(b_k),
             save_state to a file, and the in-memory continuation run(T - b_k)
   resume  : disturb the process-global generator, load_state the file, continue with run(N2)
+  history : first run other problems with the library-default operators in this interpreter, then the replay job
 """
 import json
 import os
@@ -39,7 +40,7 @@ class UserShake(FixedFrequencyExtension):
 
 
 def build(cfg):
-    kw = {k: cfg[k] for k in ("pop", "off", "constrained", "variator", "window") if k in cfg}
+    kw = {k: cfg[k] for k in ("pop", "off", "constrained", "variator", "window", "big", "capacity", "divisions", "nobjs") if k in cfg}
     alg, info = algos.build(cfg["alg"], cfg["vtype"], seed=cfg["seed"], **kw)
     if cfg.get("userext"):
         alg.add_extension(UserShake(cfg["userext"]))
@@ -68,6 +69,66 @@ def signature(alg):
     return {"result": algos.result_signature(alg), "nfe": alg.nfe}
 
 
+def _hex(v):
+    if isinstance(v, float):
+        return float.hex(v)
+    if isinstance(v, (list, tuple)):
+        return [_hex(x) for x in v]
+    if isinstance(v, (bool, int, str)) or v is None:
+        return v
+    return repr(v)
+
+
+def _sols(xs):
+    return [[_hex(list(s.variables)), _hex([float(o) for o in s.objectives])] for s in xs]
+
+
+def deep_signature(alg):
+    """internal state a continuation reads besides the result: population, bounded-archive bookkeeping"""
+    d = {"nfe": alg.nfe, "result": algos.result_signature(alg)}
+    for name in ("population", "particles", "leaders", "local_best"):
+        xs = getattr(alg, name, None)
+        if xs is not None:
+            try:
+                d[name] = _sols(list(xs))
+            except Exception:  # noqa: BLE001
+                pass
+    arch = getattr(alg, "archive", None)
+    if arch is not None:
+        d["archive"] = _sols(list(arch))
+        for name in ("minimum", "maximum", "density", "improvements"):
+            if hasattr(arch, name):
+                d["archive." + name] = _hex(getattr(arch, name))
+    for name in ("population_size", "ideal_point", "utilities", "sigma", "xmean", "iteration"):
+        if hasattr(alg, name):
+            d[name] = _hex(getattr(alg, name))
+    return d
+
+
+def roundtrip_differs(alg):
+    """pickle round trip inside this process: names of the deep-signature fields the copy does not reproduce"""
+    import pickle
+    live = deep_signature(alg)
+    copy_ = deep_signature(pickle.loads(pickle.dumps({"algorithm": alg}))["algorithm"])
+    return sorted(k for k in set(live) | set(copy_) if live.get(k) != copy_.get(k))
+
+
+def job_history(job):
+    """earlier, unrelated runs in this interpreter (other problems, library-default operators), then the seeded targets"""
+    done = []
+    for cfg in job["prelude"]:
+        try:
+            alg, _ = build(cfg)
+            for _ in range(job.get("prelude_steps", 3)):
+                alg.step()
+            done.append(alg.nfe)
+        except Exception as e:  # noqa: BLE001
+            done.append("%s: %s" % (type(e).__name__, e))
+    out = job_replay(job)
+    out["prelude"] = done
+    return out
+
+
 def job_replay(job):
     out = []
     for cfg in job["configs"]:
@@ -93,6 +154,7 @@ def job_produce(job):
     for s in single_sizes:
         bounds.append(bounds[-1] + s)
     splits = []
+    ext = job.get("extend", 0)
     for k in job["boundaries"]:
         if k >= len(bounds):
             continue
@@ -101,9 +163,21 @@ def job_produce(job):
         sizes1 = run_logged(alg, n1) if k > 0 else []
         path = os.path.join(job["dir"], "state_%s_%d.bin" % (job["tag"], k))
         save_state(path, alg)
+        at_save = deep_signature(alg)
+        lost = roundtrip_differs(alg)
         n2 = max(0, T - n1)
         sizes2 = run_logged(alg, n2)
-        splits.append({"k": k, "N1": n1, "N2": n2, "file": path, "sizes1": sizes1, "sizes2": sizes2, "mem": signature(alg)})
+        splits.append({"k": k, "N1": n1, "N2": n2, "file": path, "sizes1": sizes1, "sizes2": sizes2, "mem": signature(alg),
+                       "at_save": at_save, "roundtrip_lost": lost, "ext": False})
+        if lost and ext:
+            # search: the pickled copy is not the live object at this save point; continue much longer on both sides
+            alg, _ = build(cfg)
+            if k > 0:
+                run_logged(alg, n1)
+            n2x = n2 + ext
+            sizes2x = run_logged(alg, n2x)
+            splits.append({"k": k, "N1": n1, "N2": n2x, "file": path, "sizes1": sizes1, "sizes2": sizes2x, "mem": signature(alg),
+                           "at_save": at_save, "roundtrip_lost": lost, "ext": True})
     return {"T": T, "single_sizes": single_sizes, "single": single, "splits": splits}
 
 
@@ -114,14 +188,15 @@ def job_resume(job):
     junk = [random.random() for _ in range(17)]
     random.shuffle(junk)
     alg = load_state(job["file"])
+    at_load = deep_signature(alg)
     sizes2 = run_logged(alg, job["N2"])
-    return {"sizes2": sizes2, "loaded": signature(alg)}
+    return {"sizes2": sizes2, "loaded": signature(alg), "at_load": at_load}
 
 
 def main():
     job = json.load(open(sys.argv[1]))
     try:
-        res = {"replay": job_replay, "produce": job_produce, "resume": job_resume}[job["job"]](job)
+        res = {"replay": job_replay, "produce": job_produce, "resume": job_resume, "history": job_history}[job["job"]](job)
     except Exception as e:  # noqa: BLE001
         import traceback
         res = {"error": "%s: %s" % (type(e).__name__, e), "trace": traceback.format_exc()[-1500:]}
